@@ -35,6 +35,23 @@ func defaultPort(scheme string) string {
 	}
 }
 
+// asciiLower lower-cases the ASCII letters of s and leaves every other byte
+// as it is. Scheme and host names, directive names and the other
+// case-insensitive protocol elements are case-insensitive for ASCII letters
+// only (RFC 3986 §6.2.2.1, RFC 9110 §5.6.2). Unicode case mapping must not be
+// used for them: strings.ToLower turns every invalid UTF-8 byte into U+FFFD
+// and maps e.g. the Kelvin sign to "k" and "İ" to "i", which merges distinct
+// hosts and turns unknown directives into known ones.
+func asciiLower(s string) string {
+	b := []byte(s)
+	for i := 0; i < len(b); i++ {
+		if c := b[i]; 'A' <= c && c <= 'Z' {
+			b[i] = c + ('a' - 'A')
+		}
+	}
+	return string(b)
+}
+
 // sameOrigin checks if two URIs have the same origin (scheme, host, port).
 func sameOrigin(a, b *url.URL) bool {
 	aPort := a.Port()
